@@ -660,6 +660,17 @@ pub fn judge_message(
             } else if !(tc && m.proto == "udp") {
                 vs.push(Violation::new("c09.reply_undecodable").detail(detail("reply does not decode")));
             }
+            if let (Expect::Resolve(_), false) = (&expect, differential) {
+                // recursive server: no differential, but a name error may only
+                // come from the authoritative local zone, and AA only for its names
+                let local = q.questions[0].name.is_subdomain_of(&dn("example.test."));
+                if rcode == 3 && !local {
+                    vs.push(Violation::new("c09.name_error_without_local_authority").detail(detail("RCODE 3 for a name no authoritative local zone owns")));
+                }
+                if aa && !local {
+                    vs.push(Violation::new("c09.aa_without_local_authority").detail(detail("AA set for a name no authoritative local zone owns")));
+                }
+            }
             if let (Expect::Resolve(_), true) = (&expect, differential) {
                 // the differential part: sections, AA and RCODE are the resolver's
                 let says = resolver_says(zones, &q.questions[0]);
